@@ -23,7 +23,7 @@ type PairCase struct {
 	Opts string `json:"opts"`
 }
 
-var c01OptSets = []string{"list", "set", "mset", "setkeys:id", "setkeys:id,k", "merge", "set+merge", "mset+merge", "set+mset", "mset+set", "setkeys:id+mset"}
+var c01OptSets = []string{"list", "set", "mset", "setkeys:id", "setkeys:id,k", "merge", "set+merge", "mset+merge", "set+mset", "mset+set", "setkeys:id+mset", "prec:0", "merge+prec:0"}
 
 // profileFor returns a generator profile that respects the preconditions
 // of the option set (null-free for merge, complete unique keys for setkeys).
@@ -453,7 +453,7 @@ func hugeRunPair(t *rapid.T) PairCase {
 
 func TestC01Random(t *testing.T) {
 	RunRandom(t, "C01", "random", func(t *rapid.T) PairCase {
-		if gen.Chance(t, "hugeRun", 1) && gen.Chance(t, "hugeRun2", 50) {
+		if gen.Rare(t, "hugeRun", 1) && gen.Chance(t, "hugeRun2", 50) {
 			return hugeRunPair(t)
 		}
 		return genPairCase(t, c01OptSets, func(p *gen.Profile) {
